@@ -738,6 +738,21 @@ func c09ConcatBP(c *core.Ctx, group func(string, func(*totalCtx) string), argSha
 				}
 			}
 		}
+		// long lists: n copies of one member, and n-1 copies followed by another member
+		for a := range members {
+			for _, n := range []int{4, 5, 6, 7, 8, 9, 16, 17, 33} {
+				l := make([]int, n)
+				for i := range l {
+					l[i] = a
+				}
+				lists = append(lists, l)
+			}
+			for b := range members {
+				if b != a {
+					lists = append(lists, []int{a, a, a, a, b}, []int{b, a, a, a, a, a})
+				}
+			}
+		}
 		for _, l := range append([][]int{nil}, lists...) {
 			for _, dim := range []int{-2, -1, 0, 1, 2, 3, 6} {
 				var ts []tensor.Tensor
